@@ -43,7 +43,7 @@ func checkC04Read(c c04ReadCase) string {
 	case 3:
 		s, err = astisub.ReadFromSSAWithOptions(bytes.NewReader(b), astisub.SSAOptions{OnInvalidLine: func(string) {}})
 	default:
-		s, err = astisub.ReadFromSSA(bytes.NewReader(b))
+		s, err = astisub.ReadFromSSA(deliver(b))
 	}
 	if err != nil {
 		return fmt.Sprintf("reader rejected a well-formed document: %v\n--- document ---\n%s", err, clip(string(b), 1500))
